@@ -21,9 +21,11 @@ Nothing here imports the repository at module load; `build_base` receives the me
 CORE_TYPES = ['void', 'boolean', 'integer', 'real', 'string', 'unique_id']
 
 # parameters of the four homes; `pa` and `pn` are declared with user-defined types
-HOME_PARAMS = [['pi', 'integer'], ['pb', 'boolean'], ['ps', 'string'], ['pr', 'real'], ['pa', 'Age_t'], ['pn', 'Name_t']]
+HOME_PARAMS = [['pi', 'integer'], ['pb', 'boolean'], ['ps', 'string'], ['pr', 'real'], ['pa', 'Age_t'], ['pn', 'Name_t'],
+               ['pd', 'inst_ref<Dog>']]       # an instance handle as parameter: attributes are read THROUGH it
 # the bridge home declares the SAME parameter names with OTHER types (a look-up keyed by name alone would mix them up)
-BRIDGE_PARAMS = [['pi', 'real'], ['pb', 'boolean'], ['ps', 'string'], ['pr', 'integer'], ['pa', 'Years_t'], ['pn', 'string']]
+BRIDGE_PARAMS = [['pi', 'real'], ['pb', 'boolean'], ['ps', 'string'], ['pr', 'integer'], ['pa', 'Years_t'], ['pn', 'string'],
+                 ['pd', 'inst_ref<Dog>']]
 
 SPEC = {
     # the enumerations share enumerator names (unknown, red); one constant is named like an enumerator, and two
@@ -38,7 +40,8 @@ SPEC = {
         {'kl': 'DOG', 'name': 'Dog',
          'attrs': [['Id', 'integer'], ['Name', 'string'], ['Age', 'integer'], ['Weight', 'real'],
                    ['Alive', 'boolean'], ['Tint', 'Color'], ['Score', 'integer'],
-                   ['Years', 'Years_t'], ['Nick', 'Name_t'], ['Fit', 'Flag_t']],
+                   ['Years', 'Years_t'], ['Nick', 'Name_t'], ['Fit', 'Flag_t'],
+                   ['length', 'real']],        # an attribute NAMED length (arrays have a .length too), not an integer
          'refs': [['Owner_Id', 'PER', 'Id']],
          'derived': ['Score'],
          'ops': [['bark', True, 'void', [['times', 'integer'], ['loud', 'boolean']]],
@@ -50,7 +53,7 @@ SPEC = {
         {'kl': 'PER', 'name': 'Person',
          # Age / Weight / count / getAge exist in DOG too, with OTHER types
          'attrs': [['Id', 'integer'], ['Name', 'string'], ['Rich', 'boolean'], ['Cash', 'real'],
-                   ['Share', 'Ratio_t'], ['Level', 'Age_t'], ['Age', 'real'], ['Weight', 'integer']],
+                   ['Share', 'Ratio_t'], ['Level', 'Age_t'], ['Age', 'real'], ['Weight', 'integer'], ['length', 'string']],
          'refs': [], 'derived': [],
          'ops': [['greet', True, 'string', [['msg', 'string']]],
                  ['total', False, 'real', []],
@@ -328,9 +331,10 @@ class ProgramGen(object):
        Expressions are generated as text directly (every sub-expression that is an operation is
        parenthesised with probability, always where the grammar needs it)."""
 
-    def __init__(self, rng, home, size, feats=None, events=False):
+    def __init__(self, rng, home, size, feats=None, events=False, bare_consts=False):
         self.r = rng
         self.events = events
+        self.bare_consts = bare_consts      # read constants by their bare name (regenerates qualified: C06 only)
         self.home = home
         self.size = size
         self.scopes = [dict()]          # name -> ('trn', type) | ('int', kl) | ('ins', kl)
@@ -438,6 +442,20 @@ class ProgramGen(object):
             hs.append((self.self_word(), skl))
         return hs
 
+    def bare_const(self, ty):
+        """the bare name of a constant of type ty that no visible variable hides (only unambiguous names)"""
+        names = [n for n in ('COUNT',) if ty == 'integer'] + [n for n in ('RATIO',) if ty == 'real'] + \
+                [n for n in ('DEBUG',) if ty == 'boolean'] + [n for n in ('unknown',) if ty == 'string']
+        return [n for n in names if self.lookup(n) is None]
+
+    def index_text(self):
+        """an array index: a literal, or (C06 families) a constant read by its bare name, alone or in a sum"""
+        r = self.r
+        if self.bare_consts and self.bare_const('integer') and r.random() < 0.4:
+            self.stats['bare_constant_in_index'] = self.stats.get('bare_constant_in_index', 0) + 1
+            return r.choice(['COUNT', 'COUNT + 1', '2 * COUNT', 'COUNT - COUNT'])
+        return str(r.choice([0, 1, 2, 5]))
+
     def self_word(self):
         """`self` is a keyword: any letter case"""
         w = self.r.choice(['self', 'self', 'self', 'SELF', 'Self'])
@@ -517,6 +535,13 @@ class ProgramGen(object):
             for n, _, _ in c['refs']:
                 if core_type(attr_type(kl, n)) == ty:
                     attr_src.append('%s.%s' % (h, n))
+        for pn, pt in home_params(self.home):
+            if pt == inst_ref('DOG'):                       # attributes read through a parameter that is a handle
+                for n, _ in class_of('DOG')['attrs']:
+                    if core_type(attr_type('DOG', n)) == ty:
+                        attr_src.append('param.%s.%s' % (pn, n))
+                        if n == 'length':
+                            attr_src.append('param.%s.%s' % (pn, n))
         if sel:
             c = class_of(sel)
             for n, _ in c['attrs']:
@@ -590,12 +615,15 @@ class ProgramGen(object):
                 return '%s %s %s' % (self.paren(a[0], a[1], True) if a[1] else a[0], r.choice(ops),
                                      self.paren(b[0], b[1], True) if b[1] else b[0]), True
             k = 'lit'
+        if k in ('lit', 'const') and self.bare_consts and self.bare_const(ty) and r.random() < 0.3:
+            self.stats['bare_constant_read'] = self.stats.get('bare_constant_read', 0) + 1
+            return r.choice(self.bare_const(ty)), False
         if k == 'var':
             return r.choice(self.visible(lambda v: v == ('trn', ty))), False
         if k == 'elem':
             name = r.choice(self.visible(lambda v: v[0] == 'arr' and v[1] == ty))
             dims = self.lookup(name)[2]
-            idx = ''.join('[%s]' % (self.lit('integer') if r.random() < 0.7 else self.expr('integer', depth + 2, sel)[0])
+            idx = ''.join('[%s]' % (self.index_text() if r.random() < 0.7 else self.expr('integer', depth + 2, sel)[0])
                           for _ in range(dims))
             return name + idx, False
         if k == 'attr':
@@ -726,7 +754,7 @@ class ProgramGen(object):
                 dims = r.choice([1, 1, 2])
                 self.declare(name, ('arr', ty, dims))
             # the first assignment sizes the array from constant indices (eval_constant_expression)
-            idx = ''.join('[%d]' % r.choice([0, 1, 2, 5]) for _ in range(dims))
+            idx = ''.join('[%s]' % self.index_text() for _ in range(dims))
             return [['s', '%s%s = %s' % (name, idx, value), 'assign']]
         if k == 'assign_call':
             ty = r.choice(['integer', 'string', 'real', 'boolean'])
